@@ -539,6 +539,7 @@ def impl_hsm(case):
         tok = Token(a)
         world.items = []
         name = 'e%d' % e
+        world.expected_event = {a: name}
         try:
             if k == 1:
                 r = model.may_trigger(name, tok, k=tok)
@@ -674,6 +675,7 @@ def impl_hsm_async(case):
             tok = Token(a)
             world.items = []
             name = 'e%d' % e
+            world.expected_event = {a: name}
             try:
                 if k == 1:
                     r = await model.may_trigger(name, tok, k=tok)
